@@ -29,7 +29,7 @@ func runC17(c *ev.Ctx) {
 		"mux-assembled, hand-assembled with unknown chunks, libwebp-written, synthesized VP8/VP8L/ALPH) EVERY prefix length 0..len-1 is fed to Decode, DecodeConfig and GetFeatures; " +
 		"a prefix result must be an error or equal the complete file's result; distinct = distinct files (by content) whose complete decode succeeds; evaluations = prefixes"
 	r := rng(c, 0)
-	files := stillCorpus(r, c.N(600, 4000), c.N(48, 64))
+	files := stillCorpus(r, c.N(600, 40000), c.N(48, 64))
 	if c.Thorough() {
 		// a few larger files: all cuts in the last 4 KiB + every 97th elsewhere
 		big := stillCorpus(rng(c, 1), 24, 400)
